@@ -8,9 +8,9 @@ step! { int;
     #[kani::unwind(2)]
     fn c01_b_data_element_final() {
         // final pass, unsized value: accept <=> -2^(N-1) <= v < 2^N, stored = low N bits
-        let n: usize = kani::any(); kani::assume(n >= 1 && n <= 12);
-        let v: i16 = kani::any();
-        let prev: i16 = kani::any(); kani::assume(prev >= 0 && (prev as i64) < (1i64 << n));
+        let n: usize = kani::any(); kani::assume(n >= 1 && n <= 16);
+        let v: i32 = kani::any(); kani::assume(v >= -(1 << 17) - 4 && v <= (1 << 17) + 4);
+        let prev: i32 = kani::any(); kani::assume(prev >= 0 && (prev as i64) < (1i64 << n));
         pre_int(v as i64, None);
         let (res, _, _) = data_element_step(n, v as i64, None, 0, false, true, false, true, prev as i64);
         kani::cover!(res && v < 0, "negative value stored unchanged on the final pass");
